@@ -185,19 +185,23 @@ class Matcher:
         # The engine decides a fill's content item and the separator after it TOGETHER (the separator is flat iff content + separator
         # fit): when the content item is laid out flat because the look-ahead stopped at the bare hardline, the separator that follows it
         # was never looked at either - it belongs to the same flat scope although it is a fill item of its own here.
-        partner = None
+        # partners: for every enclosing fill item that was laid out flat, the item that follows it in its fill (the engine decides content and
+        # separator together, its look-ahead stopped at the hardline, so that next item was never examined). Parity is not used: Fill.normalize
+        # drops items that normalise to NIL, which shifts content / separator positions relative to the term as written.
+        partners = set()
         n = fl_h[1]
-        if n > 0:
-            for i, (t, mode, ind, fl) in enumerate(frames):
-                if fl[1] >= n:
-                    continue          # still inside the innermost flat fill item
-                if not isinstance(t, str) and t[0] == 'fill' and len(t) > 2 and t[2] == 1 and t[1]:
-                    partner = i       # the continuation of that item's fill, next item = the separator decided together with it
+        for i, (t, mode, ind, fl) in enumerate(frames):
+            if n <= 0:
                 break
+            if fl[1] >= n:
+                continue          # still inside the innermost not yet handled flat fill item
+            if not isinstance(t, str) and t[0] == 'fill' and len(t) > 2 and t[1]:
+                partners.add(i)
+            n = fl[1]
         node = None
         for i in range(len(frames) - 1, -1, -1):
             (t, mode, ind, fl) = frames[i]
-            if i == partner:
+            if i in partners:
                 if len(t[1]) > 1:
                     if mode == FLAT or fl != ZERO:
                         node = self.push((('fill', t[1][1:], 0), ANY if mode == FLAT else mode, ind, ZERO), node)
@@ -292,10 +296,11 @@ class Matcher:
                 continue
             if k in ('align', 'hang'):
                 body = t[1] if k == 'align' else t[2]
-                if self.forcing and (mode == FLAT or fl[0] > 0) and not fl[3] and hoists_ab(body):
-                    # a lazily evaluated body is normalised when the engine reaches it - also in the look-ahead that decides the enclosing
-                    # flat scope: an always_break anywhere in it is hoisted to its START, so the look-ahead meets it before any hardline of
-                    # the body and the scope cannot have been laid out flat (after an EARLIER bare hardline the scope is already relaxed)
+                if self.forcing and fl[0] > 0 and not fl[3] and hoists_ab(body):
+                    # a lazily evaluated body is normalised when the engine reaches it - also in the look-ahead that decides an enclosing
+                    # flat GROUP: an always_break anywhere in it is hoisted to its START, so the look-ahead meets it before any hardline of
+                    # the body and the group cannot have been laid out flat (after an EARLIER bare hardline the scope is already relaxed).
+                    # Flat fill items are left out: a separator is not always examined (see relax) and Fill.normalize shifts positions.
                     self.dead.add(key)
                     return False
                 stack = self.push((body, mode, self.st.col[pos] + (0 if k == 'align' else t[1]), fl), rest)
